@@ -377,3 +377,51 @@ Proof.
   split; [intros e; apply counts_by_source_exact|]. split; [intros e; apply counts_by_dest_exact|].
   apply listings_nodup. exact I.
 Qed.
+
+(* ---------- page sizes beyond the number of entries ----------
+   The model's page size is a [nat]; a request's is a 64-bit number.  Every page size that is not below the
+   number of entries of the listing gives the same page (everything that is left, no next key), so the
+   correspondence harness hands the model length+1 for a request with an enormous limit (2^63, 2^64-1). *)
+Section Beyond.
+  Context {K A : Type} (cmp : K -> K -> comparison) (keyof : A -> K).
+
+  Lemma drop_while_length (f : A -> bool) (l : list A) : (length (drop_while f l) <= length l)%nat.
+  Proof. induction l as [|x r IH]; cbn [drop_while length]; [lia|]. destruct (f x); cbn [length]; lia. Qed.
+
+  Lemma skipn_length_le (n : nat) (l : list A) : (length (skipn n l) <= length l)%nat.
+  Proof. rewrite skipn_length. lia. Qed.
+
+  Lemma cut_beyond (from : list A) (n m : nat) : (length from <= n)%nat -> (length from <= m)%nat ->
+    firstn n from = firstn m from /\ skipn n from = skipn m from.
+  Proof. intros Hn Hm. rewrite !firstn_all2, !skipn_all2 by assumption. auto. Qed.
+
+  Theorem paginate_limit_beyond (l : list A) key off ct rv (n m : nat) :
+    (length l < n)%nat -> (length l < m)%nat ->
+    paginate cmp keyof l {| pr_key := key; pr_offset := off; pr_limit := n; pr_count_total := ct; pr_reverse := rv |} =
+    paginate cmp keyof l {| pr_key := key; pr_offset := off; pr_limit := m; pr_count_total := ct; pr_reverse := rv |}.
+  Proof.
+    intros Hn Hm. unfold paginate. cbn [pr_key pr_offset pr_limit pr_count_total pr_reverse].
+    destruct (Nat.eqb_spec n 0) as [->|_]; [lia|]. destruct (Nat.eqb_spec m 0) as [->|_]; [lia|].
+    assert (Hd : length (if rv then rev l else l) = length l) by (destruct rv; [apply rev_length|reflexivity]).
+    destruct key as [k|].
+    - destruct (Nat.ltb 0 off); [reflexivity|].
+      match goal with |- context [firstn n ?from] =>
+        assert (Hf : (length from <= length l)%nat) by (destruct rv; (etransitivity; [apply drop_while_length|rewrite ?rev_length; lia]));
+        destruct (cut_beyond from n m) as [-> ->]; try lia end.
+      reflexivity.
+    - destruct (Nat.ltb _ off); [reflexivity|].
+      match goal with |- context [firstn n ?from] =>
+        assert (Hf : (length from <= length l)%nat) by (etransitivity; [apply skipn_length_le|lia]);
+        destruct (cut_beyond from n m) as [-> ->]; try lia end.
+      reflexivity.
+  Qed.
+
+  Theorem walk_limit_beyond (l : list A) rv (n m : nat) : (length l < n)%nat -> (length l < m)%nat ->
+    forall fuel key first, walk cmp keyof fuel l n rv key first = walk cmp keyof fuel l m rv key first.
+  Proof.
+    intros Hn Hm. induction fuel as [|fuel IH]; intros key first; [reflexivity|]. cbn [walk].
+    rewrite (paginate_limit_beyond l key 0 false rv n m Hn Hm).
+    destruct key as [k|]; [|destruct first; [|reflexivity]];
+      (destruct (paginate cmp keyof l _) as [pg| |]; [|reflexivity|reflexivity]; rewrite IH; reflexivity).
+  Qed.
+End Beyond.
